@@ -3,6 +3,7 @@
 //   --tier quick|thorough --mode opt|asan --shard i n --out file.json --seed s --deadline sec --tmp dir
 //   --replay <part> <case string>
 #pragma once
+#include <fstream>
 #include <cstdio>
 #include <cstdlib>
 #include <cstring>
@@ -178,8 +179,27 @@ inline void violation(const std::string& part, const std::string& key, const std
 	if(c.replay) fprintf(stdout, "REPRODUCED part=%s key=%s\n  %s\n  case: %s\n", part.c_str(), key.c_str(), text.c_str(), cas.c_str());
 	if(c.violations.count(key)) return;
 	std::string cls = part + "|" + key.substr(key.rfind('|') == std::string::npos ? 0 : key.rfind('|') + 1);
-	if(c.per_part[cls] >= 12) return;
-	c.per_part[cls]++;
+	// Recorded findings are always kept and never use up the per-class quota of 12 records: otherwise a class with many
+	// recorded inputs could crowd a new input of the same class out of the report. (The driver passes the recorded keys of this
+	// property in the file named by VERIF_KNOWN_KEYS; the harness never writes that file.)
+	static std::set<std::string> known;
+	static bool loaded = false;
+	if(!loaded)
+	{
+		loaded = true;
+		if(const char* f = getenv("VERIF_KNOWN_KEYS"))
+		{
+			std::ifstream in(f);
+			std::string line;
+			while(std::getline(in, line))
+				if(!line.empty()) known.insert(line);
+		}
+	}
+	if(!known.count(key))
+	{
+		if(c.per_part[cls] >= 12) return;
+		c.per_part[cls]++;
+	}
 	c.violations[key] = {part, key, text, cas};
 }
 
